@@ -7,10 +7,7 @@ use crate::io::{CountingReader, CountingWriter};
 use ark_ec::short_weierstrass::SWFlags;
 use ark_ec::twisted_edwards::TEFlags;
 use ark_ff::{BigInt, Field, Fp, FpConfig, PrimeField};
-use ark_serialize::{
-    CanonicalDeserialize, CanonicalDeserializeWithFlags, CanonicalSerialize, CanonicalSerializeWithFlags, Compress, EmptyFlags,
-    SerializationError, Validate,
-};
+use ark_serialize::{Compress, EmptyFlags, SerializationError, Validate};
 use monitor::{guard, PanicInfo};
 use std::marker::PhantomData;
 
@@ -281,7 +278,25 @@ pub fn tower_fields() -> Vec<FCfg> {
     v
 }
 
+/// the few N <= 2 fields of the `--miri-slice` workload (nothing else is instantiated in that mode)
+pub fn slice_fields() -> Vec<FCfg> {
+    let mut v = vec![];
+    macro_rules! g {
+        ($name:literal, $ty:ty) => {
+            v.push(FCfg { name: concat!("grid/", $name).to_string(), kind: "grid", ad: mk::<$ty>(concat!("grid/", $name)) });
+        };
+    }
+    g!("t251/d", cfgs::grid::t251::D);
+    g!("goldilocks/d", cfgs::grid::goldilocks::D);
+    g!("m127/d", cfgs::grid::m127::D);
+    v.push(FCfg { name: "toy/F7_2".to_string(), kind: "toy-tower", ad: mk::<cfgs::toy_towers::F7_2>("toy/F7_2") });
+    v
+}
+
 pub fn all_fields() -> Vec<FCfg> {
+    if crate::common::slice() {
+        return slice_fields();
+    }
     let mut v = tower_fields();
     v.extend(shipped_prime_fields());
     v.extend(grid_fields());
